@@ -365,6 +365,15 @@ func init() {
 					if r.Intn(3) == 0 {
 						cfg.Names = []string{"x", "y"}
 					}
+					if r.Intn(5) == 0 {
+						// identifiers around the 64- and 255-byte marks
+						cfg.Names = append(append([]string{}, cfg.Names[:2]...), lang.LongNames[r.Intn(len(lang.LongNames))], lang.LongNames[r.Intn(len(lang.LongNames))])
+					}
+					if r.Intn(25) == 0 {
+						// more than 128 / 240 live variables under the scope dance
+						cfg.Fillers = []int{127, 128, 129, 130, 200, 239, 240, 241, 300}[r.Intn(9)]
+						cfg.MaxStmts = 10
+					}
 					return cfg
 				},
 				layout: calmLayout,
@@ -396,6 +405,10 @@ func init() {
 					cfg := lang.CfgBlocks()
 					if r.Intn(3) == 0 {
 						cfg.WBind = 2 // the result list must not be disturbed by bind statements
+					}
+					if r.Intn(6) == 0 {
+						cfg.Names = append(append([]string{}, cfg.Names...), lang.LongNames[r.Intn(len(lang.LongNames))])
+						cfg.WVar = 5
 					}
 					return cfg
 				},
@@ -574,7 +587,18 @@ func init() {
 		MinNontrivial: 1000,
 		Run: func(c *core.Ctx) {
 			runRefProfile(c, &refProfile{
-				cfg:    func(r *rand.Rand) lang.GenCfg { return lang.CfgBind() },
+				cfg: func(r *rand.Rand) lang.GenCfg {
+					cfg := lang.CfgBind()
+					switch r.Intn(6) {
+					case 0:
+						// block types spelled like selector and target words
+						cfg.Types = []string{"first", "last", "all", "struct", "slice"}
+					case 1:
+						// block types differing only in letter case
+						cfg.Types = []string{"srv", "Srv", "SRV", "blk"}
+					}
+					return cfg
+				},
 				layout: calmLayout,
 				quickN: 150000, thorN: 12000000,
 				nontriv: func(cs *Case) bool { return cs.Oc != nil && cs.Oc.Binds >= 1 },
